@@ -9,7 +9,7 @@ LEVEL = "model_checking"
 def run(tier, rep):
     thorough = tier == "thorough"
     rep.assumptions += [
-        "retention is measured as the number of nodes reachable from the root of the k-th delivered record (RawRecord().Raw() and exported links)",
+        "retention is measured as the number of nodes reachable from the root of the k-th delivered record (RawRecord().Raw() and exported links), and as the live heap of the process after a collection at two points of a long stream (what readers and caches hold besides the tree)",
         "cases repeat identical records (period 1, or 2 with records failing the FINAL_OUTPUT filter or failing their transform) under fixed ancestors, with blank lines / whitespace separators",
     ]
     for sep, filt in (("FALSE", "FALSE"), ("FALSE", "TRUE")):
@@ -30,6 +30,12 @@ def run(tier, rep):
             rep.add_summary(x)
     for rj in vlib.validate_traces(rep, "Trace_Retention", "Trace_Retention.cfg", tr, timeout=3000):
         ev = rj["failing_event"]
+        if ev.get("ev") == "heap":
+            per = (ev.get("live2", 0) - ev.get("live", 0)) // max(1, ev.get("at2", 1) - ev.get("at", 0))
+            rep.violation({"property": "C17", "key": "retained-heap-grows:" + str(ev.get("case")), "kind": "b2",
+                           "summary": "%s: the live heap grows with the number of records delivered although the record's tree does not: %s bytes after %s records, %s after %s (%s bytes per record)" % (
+                               ev.get("case"), ev.get("live"), ev.get("at"), ev.get("live2"), ev.get("at2"), per), "case": ev.get("case"), "event": ev})
+            continue
         sizes = [(e.get("k"), e.get("size")) for e in rj["events"] if e.get("ev") == "size"]
         rep.violation({"property": "C17", "key": "retention-grows:" + str(ev.get("case")), "kind": "b2",
                        "summary": "%s: the tree reachable from the k-th record grows with k: %s" % (ev.get("case"), sizes[:4] + sizes[-3:]),
@@ -38,4 +44,4 @@ def run(tier, rep):
     vlib.ingester_protocol(rep, "C17", thorough)
     rep.cov["rule"] = ("26 cases over all formats (compact, whitespace/blank-line separators, nested groups, records failing the filter, records whose transform fails), k = 3000 / "
                        "200000 records streamed through the real Transform; sizes probed at k<=16, powers of two, every 1000th; TLC (Trace_Retention) "
-                       "requires size_k <= max(size_1..size_8). non-trivial: >=100 deliveries with separators or filtered-out records")
+                       "requires size_k <= max(size_1..size_8); per case also the live heap (after a collection) after 10 000 and after 40 000 records, growth <= 1 MiB or < 8 bytes per record. non-trivial: >=100 deliveries with separators or filtered-out records")
